@@ -23,14 +23,16 @@ struct Counted {
     ~Counted() { --g_live; }
 };
 
-enum Op { CopyP, GetTask, CopyT, ThenPlain, ThenSelfCapture, ThenReenter, Finish, DestroyCtx, DropP, DropT, FinishLvalue, FinishConvert, NOPS };
-static const char *opNames[] = { "copyP", "task", "copyT", "then", "then(self-capturing)", "then(re-entering)", "finish", "destroyCtx", "dropP", "dropT", "finish(lvalue)", "finish(convertible)" };
+enum Op { CopyP, GetTask, CopyT, ThenPlain, ThenSelfCapture, ThenReenter, Finish, DestroyCtx, DropP, DropT, FinishLvalue, FinishConvert, ThenLate, NOPS };
+static const char *opNames[] = { "copyP", "task", "copyT", "then", "then(self-capturing)", "then(re-entering)", "finish", "destroyCtx", "dropP", "dropT", "finish(lvalue)", "finish(convertible)",
+                                 "then(late, self-capturing, after the value was consumed)" };
 
 struct Model {
     int promises = 1, tasks = 0;
     bool ctxAlive = true, finished = false, thenDone = false, selfCapture = false, reenter = false;
     int expected = 0;
     bool ctxDeadAtFinishWithContinuation = false;
+    bool lateDone = false;   // a second continuation attached after the first one consumed the value
 
     bool enabled(int op) const
     {
@@ -45,6 +47,9 @@ struct Model {
         case FinishLvalue:
         case FinishConvert: return promises >= 1 && !finished;
         case DestroyCtx: return ctxAlive;
+        // a second continuation once the first one has run: whether it runs is not constrained (void: it does, otherwise the value is
+        // gone), but it must be released -- it captures a copy of its own task, so storing it would leak the shared state for good
+        case ThenLate: return tasks >= 1 && ctxAlive && finished && thenDone && expected == 1 && !reenter && !lateDone;
         case DropP: return promises >= 1;
         case DropT: return tasks >= 1;
         }
@@ -85,6 +90,7 @@ struct Model {
             }
             break;
         case DestroyCtx: ctxAlive = false; break;
+        case ThenLate: lateDone = true; break;
         case DropP: --promises; break;
         case DropT: --tasks; break;
         }
@@ -117,6 +123,7 @@ struct Outcome {
     bool valueOk = true;
     int otherInvoked = 0;
     int liveAfter = 0;
+    int lateInvoked = 0;
     bool isFinishedSeen = true;
 };
 
@@ -138,7 +145,7 @@ static Outcome execute(const std::vector<int> &seq)
         for (int op : seq) {
             // the implementation may have diverged from the model (e.g. a continuation that must not run dropped the
             // task copies): stop executing, the invocation count already differs and is reported
-            const bool needsTask = op == CopyT || op == ThenPlain || op == ThenSelfCapture || op == ThenReenter || op == DropT;
+            const bool needsTask = op == CopyT || op == ThenPlain || op == ThenSelfCapture || op == ThenReenter || op == DropT || op == ThenLate;
             const bool needsPromise = op == CopyP || op == GetTask || op == Finish || op == FinishLvalue || op == FinishConvert || op == DropP;
             if ((needsTask && tasks.empty()) || (needsPromise && promises.empty())) {
                 break;
@@ -212,6 +219,19 @@ static Outcome execute(const std::vector<int> &seq)
                     promises.back().finish(V<T>::convertible());
                 }
                 break;
+            case ThenLate: {
+                if (!ctx) {
+                    break;
+                }
+                Counted token(9);
+                auto self = tasks.back();
+                if constexpr (std::is_void_v<T>) {
+                    tasks.back().then(ctx, [&out, token, self]() { ++out.lateInvoked; });
+                } else {
+                    tasks.back().then(ctx, [&out, token, self](T &&) { ++out.lateInvoked; });
+                }
+                break;
+            }
             case DestroyCtx:
                 delete ctx;
                 ctx = nullptr;
@@ -288,6 +308,13 @@ static void checkSequence(EnumCtx &ctx, const std::vector<int> &seq, const Model
     }
     if (userCycle) {
         ctx.count(QStringLiteral("excluded_user_cycles"));
+    }
+    if (m.lateDone) {
+        ctx.count(QStringLiteral("late_continuations"));
+        if (o.lateInvoked > 1) {
+            ctx.violation(QStringLiteral("C13/late-continuation-ran-%1-times").arg(o.lateInvoked), QStringLiteral("type %1: a continuation attached after the value was consumed ran %2 times").arg(QString::fromLatin1(tn)).arg(o.lateInvoked),
+                          caseJson(tn, seq));
+        }
     }
     if (ctx.verbose) {
         fprintf(stderr, "type=%s invoked=%d expected=%d valueOk=%d liveAfter=%d other=%d\n", tn, o.invoked, m.expected, o.valueOk, o.liveAfter, o.otherInvoked);
